@@ -16,7 +16,7 @@ CLAIMS = {
             "Spec.v is the reference for the SSZ text and the library's documented mappings; it is hand-written"),
     "C04": ("Theorem C04_exact: dec t bs = Ok v <-> Valid t bs v for strict types and inputs below 2^32; forward theorems for maps/sets and C04_collections_at_any_depth (dec t bs = Ok v <-> some L is Valid for the entry-list view of t and v is its collection, for sets/maps nested anywhere); transparent enums = first accepting variant. Oracle: crate accept/value vs extracted valid_b, and valid encodings must be accepted.",
             "the 2^32 bound is the spec's serialization bound; the crate does not enforce it and the theorem does not claim it"),
-    "C05": ("Theorem C05_decode_no_panic for every type expression and every byte string, plus the helpers, the list decoder with any limit/collection and the builder with any registration sequence: every Rust panic site is an explicit Panic branch of the model and is proved unreachable. Tie: outcome class of every decode/helper/builder call under catch_unwind; a dying harness process is attributed to its last case.",
+    "C05": ("Theorem C05_decode_no_panic for every type expression and every byte string, plus the helpers, the list decoder with any limit/collection and the builder with any registration sequence: every Rust panic site is an explicit Panic branch of the model and is proved unreachable. Tie: outcome class of every decode/helper/builder call under catch_unwind; a dying harness process is attributed to its last case. Known findings (open, printed as KNOWN-FINDING): D7 stack exhaustion on a 20000-level self-referential type; D8 / D9 types whose fixed-size part exceeds usize::MAX (tuple unchecked add, derive expect), which are outside the model.",
             "partial: stack depth and allocation failure are runtime behaviour outside the model (self-referential derive inputs are not terms of the type algebra); panics inside std or third-party code the model does not mention would only be seen by the differential run"),
     "C06": ("Theorem C06_linear: the allocation account units t bs (everything the decoder may reserve, collect or copy, at every nesting level, on success and error paths) is at most ufactor t x length, for every type and byte string; C06_reserved_before_decoding (reservation and work <= len/4 whatever the first offset announces). Tie: the real allocator's peak live bytes and largest request around every decode call, under a counting global allocator, must stay below growth x element size x (account + 1) + constant, and below the same with the proved linear bound.",
             "partial by nature: the theorem is about the account; the allocator's real behaviour (Vec growth, BTree nodes, error strings) is measured, not proved; a decode that takes the process down is attributed to the announced case"),
